@@ -40,9 +40,9 @@ own_pio (bool), seed``):
 * ``rt/update_image/updater_runs``     + ``detail`` (an updater raised / exit code != 0)
 * ``rt/update_image/terminates``       + ``timeout_s`` (watchdog; generous: >= 10x the expected time)
 
-Bounds: quick: N in {2,4,8} x ~100 updates per scenario, 8 scenarios (npy/fits F32, png/npy RGBA,
+Bounds: quick: N in {2,4,8} x 64..100 updates per scenario, 8 scenarios (npy/fits F32, png/npy RGBA,
 both naming schemes, tiles (0,0,0) .. (7,100,77), disjoint and overlapping regions, delay 2-5 ms).
-thorough: N in {2,4,8,16} x 200 rounds (up to 3200 updates on one tile), 14 scenarios.
+thorough: N in {2,4,8,16} x 200 rounds (up to 3200 updates on one tile), 14 scenarios (21 200 updates).
 Only schedules the OS produces under this stress are explored, not every interleaving.
 
 Trusted: ``filelock.SoftFileLock`` (external), the OS's atomic O_EXCL create, numpy/astropy/PIL
